@@ -7,7 +7,8 @@ from ..dataflow import DefUse
 from .. import events as E
 from ._h_A import (FactReach, Facts, nodes_of_stmts, nodes_for, kwarg, is_const, stmts_in,
                    attr_sites, obj_sites, inliner, expander, bind_call, call_arg, real_loops,
-                   Owners, followed, returns_of, value_at, deref_at, reaching_defs, innermost_loop,
+                   Owners, followed, returns_of, value_at, deref_at, derefs_at, reaching_defs,
+                   innermost_loop,
                    loop_breaks)
 from .c06 import Scan, LoopRoles, work_item, STEP, LOOP, ONE
 
@@ -322,14 +323,16 @@ def r2_cycle_flag(run, w, sc):
     if n.id not in hb or v is None:
       continue
     n_rets += 1
-    raw, at = deref_at(one, cfg, du, n.id, r.value)
-    err = None
-    if isinstance(raw, ast.Call) and endswith(dotted(raw.func), "RaisedException"):
-      ri = w.repo.funcs.get("objtypes.RaisedException.__init__")
-      err = call_arg(raw, ri, ri.params()[1]) if ri is not None else \
-          (raw.args[0] if raw.args else None)
-    ok = err is not None and \
-        du.flows_from(lambda x: isinstance(x, ast.Call) and dotted(x.func) == "sys.exc_info", err)
+    ok = True
+    raw = None
+    for (raw, at) in derefs_at(one, cfg, du, n.id, r.value):
+      err = None
+      if isinstance(raw, ast.Call) and endswith(dotted(raw.func), "RaisedException"):
+        ri = w.repo.funcs.get("objtypes.RaisedException.__init__")
+        err = call_arg(raw, ri, ri.params()[1]) if ri is not None else \
+            (raw.args[0] if raw.args else None)
+      ok = ok and err is not None and \
+          du.flows_from(lambda x: isinstance(x, ast.Call) and dotted(x.func) == "sys.exc_info", err)
     run.ob(R2, one.qualname, "except: ... return objtypes.RaisedException(<the caught error>, ...)",
            "the value stored for a failed cell wraps the exception "
            "that was actually raised (here: the CircularRefError)", ok, fi=one.fi, node=r,
